@@ -25,7 +25,7 @@ open KVerif.Drv
 /-- kvdrv <prop>: one case line in, one `M <model> ## S <spec>` line out. -/
 def dispatch (prop : String) : Option (String → String × String) :=
   match prop with
-  | "C10" => some C10.run
+  | "C10" => some fun line => if line.startsWith "KAN" then Kan.run "KAN" line else C10.run line
   | "C04" => some C04.run
   | "C13" => some C13.run
   | "C19" => some C19.run
